@@ -47,12 +47,15 @@ pub struct Case {
     /// its stdin is alive, under the cooperative scheduler (they announce before opening anything for writing and before writes
     /// to files): whatever scratch the tool uses, each must run its own program
     pub overlap_load: Option<String>,
+    /// how the `-o FILE` of the save is spelled: 0 `x.bc`; 1 `X.BC` (upper-case extension); 2 `lnk/../x2.bc` through a symbolic link to
+    /// a directory elsewhere; 3 `x.bc` is a symbolic link to a longer earlier image kept in a store. The load reads the name as given.
+    pub save_name_style: u8,
 }
 
 impl Case {
     pub fn to_json(&self) -> Value {
         json!({"engine": ENGINE, "property": self.property, "program": self.spec.to_json(), "profile": self.profile.name(), "writer": self.writer,
-               "action": self.action, "via_stdin": self.via_stdin, "plan": self.plan, "save_channel": self.save_channel, "save_plan": self.save_plan, "stale": self.stale, "hash_seed": self.hash_seed, "dev_stdin_pipe": self.dev_stdin_pipe, "env": self.env, "stdin_offset": self.stdin_offset, "overlap_save": self.overlap_save, "overlap_load": self.overlap_load})
+               "action": self.action, "via_stdin": self.via_stdin, "plan": self.plan, "save_channel": self.save_channel, "save_plan": self.save_plan, "stale": self.stale, "hash_seed": self.hash_seed, "dev_stdin_pipe": self.dev_stdin_pipe, "env": self.env, "stdin_offset": self.stdin_offset, "overlap_save": self.overlap_save, "overlap_load": self.overlap_load, "save_name_style": self.save_name_style})
     }
     pub fn from_json(v: &Value) -> Option<Case> {
         Some(Case {
@@ -72,6 +75,7 @@ impl Case {
             stdin_offset: v.get("stdin_offset").and_then(|x| x.as_u64()).unwrap_or(0) as usize,
             overlap_save: v.get("overlap_save").and_then(|x| x.as_str()).map(|s| s.to_string()),
             overlap_load: v.get("overlap_load").and_then(|x| x.as_str()).map(|s| s.to_string()),
+            save_name_style: v.get("save_name_style").and_then(|x| x.as_u64()).unwrap_or(0) as u8,
         })
     }
 }
@@ -118,7 +122,15 @@ pub fn check(case: &Case) -> Result<Option<Obs>, (String, String)> {
             // durable state of an earlier build: the image of ANOTHER program already sits under the name the tool derives today
             if case.stale { std::fs::write(dir.join("outdir").join("x.bc"), &other_image).unwrap(); }
         }
-        let mut c = if case.save_channel == "-o FILE" { Child::new(case.profile, &["compile", "x.json", "-o", "x.bc"]) } else if case.save_channel == "-o DIR" { Child::new(case.profile, &["compile", "x.json", "-o", "outdir"]) } else { Child::new(case.profile, &["compile", "x.json"]) };
+        let save_name: &str = match (case.save_channel.as_str(), case.save_name_style) { ("-o FILE", 1) => "X.BC", ("-o FILE", 2) => "lnk/../x2.bc", _ => "x.bc" };
+        if case.save_channel == "-o FILE" && case.save_name_style == 2 { let _ = std::fs::create_dir_all(dir.join("elsewhere/deep")); let _ = std::os::unix::fs::symlink("elsewhere/deep", dir.join("lnk")); }
+        if case.save_channel == "-o FILE" && case.save_name_style == 3 {
+            let _ = std::fs::create_dir_all(dir.join("store"));
+            let mut old = vm::serialize_to_vec(&program).unwrap_or_default(); let again = old.clone(); old.extend_from_slice(&again); old.extend_from_slice(b" tail of the earlier, longer image");
+            std::fs::write(dir.join("store/build-1.bc"), old).unwrap();
+            let _ = std::os::unix::fs::symlink("store/build-1.bc", dir.join("x.bc"));
+        }
+        let mut c = if case.save_channel == "-o FILE" { Child::new(case.profile, &["compile", "x.json", "-o", save_name]) } else if case.save_channel == "-o DIR" { Child::new(case.profile, &["compile", "x.json", "-o", "outdir"]) } else { Child::new(case.profile, &["compile", "x.json"]) };
         if case.save_channel == "stdout>file" { c.stdout = super::proc::Out::File("x.bc".into()); }
         c.env = case.env.clone();
         c.shim = Some(ShimCfg { seed: case.hash_seed, plan: case.save_plan.clone(), clock: None, junk: 0, budget: Some(4_000_000), ..Default::default() });
@@ -134,6 +146,12 @@ pub fn check(case: &Case) -> Result<Option<Obs>, (String, String)> {
         children += 1;
         if !r.exit.is_success() { cleanup(&dir); return Ok(None); } // stage refusal (C06's subject) or a transient fault reported as an error
         if case.save_channel == "stdout|pipe" { std::fs::write(dir.join("x.bc"), &r.stdout).unwrap(); }
+        if case.save_channel == "-o FILE" && save_name != "x.bc" {
+            // the load below reads x.bc: what the operating system finds under the name as given is moved there
+            let bytes = std::fs::read(dir.join(save_name)).unwrap_or_default();
+            let _ = std::fs::remove_file(dir.join("x.bc"));
+            std::fs::write(dir.join("x.bc"), bytes).unwrap();
+        }
         if case.save_channel == "-o DIR" {
             // whatever name the tool derived: the one file of the directory (a stale image that was simply left alone is what is found then)
             let mut names: Vec<std::path::PathBuf> = std::fs::read_dir(dir.join("outdir")).map(|rd| rd.filter_map(|e| e.ok()).map(|e| e.path()).collect()).unwrap_or_default();
@@ -308,6 +326,7 @@ fn minimise(case: &Case, oracle: &str) -> Case {
     if best.stdin_offset > 0 { let mut c = best.clone(); c.stdin_offset = 0; if still(&c) { best = c; } }
     if best.overlap_save.is_some() { let mut c = best.clone(); c.overlap_save = None; if still(&c) { best = c; } }
     if best.overlap_load.is_some() { let mut c = best.clone(); c.overlap_load = None; if still(&c) { best = c; } }
+    if best.save_name_style != 0 { let mut c = best.clone(); c.save_name_style = 0; if still(&c) { best = c; } }
     if let ProgSpec::Stmts(stmts) = &best.spec {
         let mut stmts = stmts.clone();
         let mut j = stmts.len();
@@ -370,8 +389,10 @@ pub fn run_layer_b(property: &str, seed: u64, tier: &str, ev: &mut Evidence) -> 
             stdin_offset: 0,
             overlap_save: None,
             overlap_load: None,
+            save_name_style: 0,
         };
         let mut case = case;
+        if case.writer == "fml" && case.save_channel == "-o FILE" && rng.below(5) == 0 { case.save_name_style = 1 + rng.below(3) as u8; case.stale = false; }
         if case.via_stdin && case.action == "execute" && rng.below(5) == 0 { case.overlap_load = Some((0..10).map(|_| if rng.coin() { '1' } else { '0' }).collect()); case.plan = String::new(); }
         if case.writer == "fml" && case.save_channel == "-o FILE" && rng.below(6) == 0 { case.overlap_save = Some((0..10).map(|_| if rng.coin() { '1' } else { '0' }).collect()); case.stale = false; }
         if case.via_stdin && rng.below(4) == 0 { case.stdin_offset = *rng.pick(&[1usize, 20, 100, 5000, 9000]); if case.plan.contains('$') { case.plan = String::new(); } }
